@@ -120,7 +120,7 @@ package processor
 //@ pure signedBy(p *Processor, m *gossipv1.SignedObservation, gs *common.GuardianSet) = cntKeys(domOf(entryOf(p, m).signatures), gs.Keys, len(gs.Keys))
 
 //@ func (p *Processor) handleObservation(ctx context.Context, m *gossipv1.SignedObservation)
-//@   props C13 C01 C02 C03
+//@   props C13 C01 C02 C03 C07
 //@   ensures [reject-bad-signature] !old(len(m.Hash) == 32 && len(m.Signature) == 65 && ecrec_ok(from32(m.Hash), from65(m.Signature))) ==> untouched(p)
 //@   ensures [reject-address-mismatch] old(len(m.Hash) == 32 && len(m.Signature) == 65 && ecrec_ok(from32(m.Hash), from65(m.Signature)) && vaa.pk2addr(ecrec(from32(m.Hash), from65(m.Signature))) != b2a(m.Addr)) ==> untouched(p)
 //@   ensures [reject-no-set] old(gsFor(p, m)) == nil ==> untouched(p)
